@@ -36,6 +36,7 @@ Section S.
     let new := calc_id frepr (c_data c) in
     let wsd := wsp (getS w (h_s h0)) in
     old <> new ->
+    getCF w ci = wsd ++ [old; SPF] ->
     get (w_fs w) (wsd ++ [old; SPF]) = Some (File cf) ->
     get (w_fs w) (wsd ++ [old; SPT]) = None ->
     get (w_fs w) (wsd ++ [old]) = Some Dir -> get (w_fs w) wsd = Some Dir ->
@@ -43,7 +44,7 @@ Section S.
     exists w', sp_save frepr false w ci = (w', inr (FExn EDestinationExists)) /\
       fs_eq (w_fs w') (w_fs w) /\ w_hs w' = w_hs w /\ w_cs w' = w_cs w /\ w_ss w' = w_ss w.
   Proof.
-    intros w ci cf c h0 old new wsd Hne Hfile Htmp Hsrc Hws Hdst Hkids.
+    intros w ci cf c h0 old new wsd Hne HCF Hfile Htmp Hsrc Hws Hdst Hkids.
     set (f := w_fs w) in *. set (src := wsd ++ [old]) in *. set (dst := wsd ++ [new]) in *.
     assert (Efn : wsd ++ [old; SPF] = src ++ [SPF]) by apply two_snoc.
     assert (Etn : wsd ++ [old; SPT] = src ++ [SPT]) by apply two_snoc.
@@ -91,7 +92,9 @@ Section S.
     { unfold fname. rewrite parent_snoc. intro E. symmetry in E. exact (snoc_neq_self _ _ E). }
     unfold sp_save. fold c. fold h0. fold old. fold new. fold wsd.
     assert (Hon : str_eqb old new = false) by (apply str_eqb_neq; exact Hne). rewrite Hon.
-    rewrite Efn, Etn. fold src fname tmp f. rewrite R1. simpl w_fs. fold dst. rewrite R2, R3. simpl.
+    assert (Htmp_eq : parent fname ++ [last fname [] ++ [126%N]] = tmp).
+    { unfold fname, tmp. rewrite parent_snoc, last_last. reflexivity. }
+    rewrite HCF, Efn. fold fname. rewrite Htmp_eq. fold f. rewrite R1. simpl w_fs. fold src dst. rewrite R2, R3. simpl.
     eexists. split; [reflexivity|]. split; [|auto].
     simpl. exact (rename_file_roundtrip f fname tmp cf f1 f3 Hfile Htmp R1 R3).
   Qed.
@@ -321,6 +324,7 @@ Section S.
     old <> new ->
     js <> [] ->
     (forall j, In j js -> (j < length (w_hs w))%nat /\ h_cell (getH w j) = Some ci /\ h_s (getH w j) = h_s h0) ->
+    getCF w ci = src ++ [SPF] ->
     get (w_fs w) (src ++ [SPF]) = Some (File cf) ->
     get (w_fs w) (src ++ [SPT]) = None -> get (w_fs w) (src ++ [TMPPFX ++ SPF]) = None ->
     get (w_fs w) src = Some Dir -> get (w_fs w) wsd = Some Dir ->
@@ -336,7 +340,7 @@ Section S.
       (forall j, In j js -> h_cached (getH w' j) = Some (c_data c)) /\
       (forall k, ~ In k js -> h_cached (getH w' k) = h_cached (getH w k)).
   Proof.
-    intros w ci cf c js h0 old new wsd src dst Hne Hjs Hall Hfile Htmp Htmp2 Hsrc Hws Hdst Hkids.
+    intros w ci cf c js h0 old new wsd src dst Hne Hjs Hall HCF Hfile Htmp Htmp2 Hsrc Hws Hdst Hkids.
     set (f := w_fs w) in *.
     set (fname := src ++ [SPF]) in *. set (tmp := src ++ [SPT]) in *.
     assert (Hft : fname <> tmp).
@@ -386,7 +390,9 @@ Section S.
     (* run sp_save up to the unlink *)
     unfold sp_save. fold c. fold js. fold h0. fold old. fold new. fold wsd.
     assert (Hon : str_eqb old new = false) by (apply str_eqb_neq; exact Hne). rewrite Hon.
-    rewrite !two_snoc. fold src dst fname tmp f. rewrite R1. simpl w_fs. rewrite R2.
+    assert (Htmp_eq : parent fname ++ [last fname [] ++ [126%N]] = tmp).
+    { unfold fname, tmp. rewrite parent_snoc, last_last. reflexivity. }
+    rewrite HCF. fold fname. rewrite Htmp_eq. fold src dst f. rewrite R1. simpl w_fs. rewrite R2.
     set (wa := set_fs (set_fs w f1 [EvRename fname tmp]) f2 [EvRename src dst]).
     set (w2i := set_ids wa js new).
     set (w2c := set_cached w2i js (c_data c)).
@@ -400,6 +406,26 @@ Section S.
       destruct (reset_docs_frame js w2c) as [C1 [C2 [C3 [C4 C5]]]]. fold w2 in C1, C2, C3, C4, C5.
       rewrite C1, C2, C3, C4, C5, B1, B2, B3, B4, B5. auto 6. }
     destruct FF as [F1 [F2 [F3 [F4 F5]]]].
+    (* the last handle of the cell (the loop variable) *)
+    set (hl := last js 0%nat).
+    assert (Hl_in : In hl js).
+    { unfold hl. destruct js as [|j0 js0]; [contradiction|]. apply exists_last in Hjs || idtac.
+      clear. assert (H : j0 :: js0 <> []) by discriminate. destruct (exists_last H) as [l' [a E]].
+      rewrite E. rewrite last_last. apply in_or_app. right. simpl. auto. }
+    destruct (Hall hl Hl_in) as [Hl_lt [Hl_cell Hl_s]].
+    assert (Hh2 : forall k, h_s (getH w2 k) = h_s (getH w k) /\ h_cell (getH w2 k) = h_cell (getH w k)).
+    { intro k. rewrite HgetH2. unfold w2c.
+      destruct (set_cached_fields js w2i (c_data c) k) as [A' [B' _]]. rewrite A', B'. unfold w2i.
+      destruct (set_ids_fields js wa new k) as [A [B _]]. rewrite A, B. auto. }
+    assert (Hid2 : forall j, In j js -> h_id (getH w2 j) = new).
+    { intros j Hj. rewrite HgetH2. unfold w2c.
+      destruct (set_cached_fields js w2i (c_data c) j) as [_ [_ [C' _]]]. rewrite C'. unfold w2i.
+      apply set_ids_in; auto. destruct (Hall j Hj) as [Hlt _]. exact Hlt. }
+    assert (Hjd : jobdir w2 (getH w2 hl) = dst).
+    { unfold jobdir, wsp. rewrite (Hid2 hl Hl_in). destruct (Hh2 hl) as [A _]. rewrite A, Hl_s.
+      unfold dst, wsd, wsp, getS. rewrite F2. reflexivity. }
+    assert (Hspf : spfile w2 (getH w2 hl) = dst ++ [SPF]) by (unfold spfile; rewrite Hjd; reflexivity).
+    rewrite Hjd, Hspf.
     set (tmp' := dst ++ [SPT]).
     assert (Htmp'2 : get f2 tmp' = Some (File cf)).
     { rewrite G2. unfold tmp'. rewrite strip_app. fold tmp. rewrite G1, path_eqb_refl. reflexivity. }
@@ -409,29 +435,19 @@ Section S.
     set (f3 := remove tmp' f2).
     assert (G3 : forall q, get f3 q = if path_eqb q tmp' then None else get f2 q).
     { intro q. apply (get_unlink f2 tmp' f3 q). unfold unlink. rewrite Htmp'2. reflexivity. }
-    set (w3 := lock_move (set_fs w2 f3 [EvUnlink tmp']) fname (dst ++ [SPF])).
+    set (w3 := set_CF (lock_move (set_fs w2 f3 [EvUnlink tmp']) fname (dst ++ [SPF])) ci (dst ++ [SPF])).
     (* re-initialisation through the last handle of the cell *)
-    set (hl := last js 0%nat).
-    assert (Hl_in : In hl js).
-    { unfold hl. destruct js as [|j0 js0]; [contradiction|]. apply exists_last in Hjs || idtac.
-      clear. assert (H : j0 :: js0 <> []) by discriminate. destruct (exists_last H) as [l' [a E]].
-      rewrite E. rewrite last_last. apply in_or_app. right. simpl. auto. }
-    destruct (Hall hl Hl_in) as [Hl_lt [Hl_cell Hl_s]].
     assert (Hh3 : forall k, h_s (getH w3 k) = h_s (getH w k) /\ h_cell (getH w3 k) = h_cell (getH w k)).
-    { intro k. unfold w3. rewrite getH_lock_move, getH_set_fs, HgetH2. unfold w2c.
-      destruct (set_cached_fields js w2i (c_data c) k) as [A' [B' _]]. rewrite A', B'. unfold w2i.
-      destruct (set_ids_fields js wa new k) as [A [B _]]. rewrite A, B. auto. }
+    { intro k. exact (Hh2 k). }
     assert (Hid3 : forall j, In j js -> h_id (getH w3 j) = new).
-    { intros j Hj. unfold w3. rewrite getH_lock_move, getH_set_fs, HgetH2. unfold w2c.
-      destruct (set_cached_fields js w2i (c_data c) j) as [_ [_ [C' _]]]. rewrite C'. unfold w2i.
-      apply set_ids_in; auto. destruct (Hall j Hj) as [Hlt _]. exact Hlt. }
+    { intros j Hj. exact (Hid2 j Hj). }
     assert (E3 : sp_access frepr w3 hl = (w3, inl ci)).
     { apply sp_access_idem. destruct (Hh3 hl) as [_ B]. rewrite B. exact Hl_cell. }
     assert (Hws3 : wsp (getS w3 (h_s (getH w3 hl))) = wsd).
     { destruct (Hh3 hl) as [A _]. rewrite A, Hl_s. unfold wsd, wsp, getS, w3. simpl. rewrite F2. reflexivity. }
     assert (Hlt3 : (hl < length (w_hs w3))%nat) by (unfold w3; simpl; rewrite F5; simpl; exact Hl_lt).
     assert (Hd3 : c_data (getC w3 ci) = c_data c).
-    { unfold w3. rewrite getC_lock_move, getC_set_fs. unfold getC. rewrite F3. reflexivity. }
+    { change (getC w3 ci) with (getC w2 ci). unfold getC. rewrite F3. reflexivity. }
     pose proof (init_writes frepr w3 hl w3 ci (c_data c) Hlt3 E3 Hd3) as IW.
     cbv zeta in IW. rewrite (Hid3 hl Hl_in), Hws3 in IW. fold dst in IW.
     change (w_fs w3) with f3 in IW.
@@ -508,10 +524,10 @@ Section S.
       rewrite Hq1. apply Hout. exact Hq1.
     - intros j Hj. destruct (Hids j) as [A [B _]]. rewrite A, B. split; [apply Hid3; exact Hj|].
       destruct (Hh3 j) as [C _]. rewrite C. destruct (Hall j Hj) as [_ [_ D]]. exact D.
-    - intros j Hj. destruct (Hids j) as [_ [_ C]]. rewrite C. unfold w3. rewrite getH_lock_move, getH_set_fs, HgetH2. unfold w2c.
+    - intros j Hj. destruct (Hids j) as [_ [_ C]]. rewrite C. change (getH w3) with (getH w2). rewrite HgetH2. unfold w2c.
       apply set_cached_in; auto. destruct (set_ids_frame js wa new) as [_ [_ [_ [_ A5]]]]. fold w2i in A5.
       rewrite A5. simpl. destruct (Hall j Hj) as [Hlt _]. exact Hlt.
-    - intros k Hk. destruct (Hids k) as [_ [_ C]]. rewrite C. unfold w3. rewrite getH_lock_move, getH_set_fs, HgetH2. unfold w2c.
+    - intros k Hk. destruct (Hids k) as [_ [_ C]]. rewrite C. change (getH w3) with (getH w2). rewrite HgetH2. unfold w2c.
       rewrite set_cached_notin by exact Hk. unfold w2i.
       destruct (set_ids_fields js wa new k) as [_ [_ [D _]]]. rewrite D. reflexivity.
   Qed.
@@ -533,6 +549,7 @@ Section S.
     let new := calc_id frepr (c_data c) in
     let wsd := wsp (getS w (h_s h0)) in
     old <> new ->
+    getCF w ci = wsd ++ [old; SPF] ->
     get (w_fs w) (wsd ++ [old; SPF]) = Some (File cf) ->
     get (w_fs w) (wsd ++ [old; SPT]) = None ->
     get (w_fs w) (wsd ++ [old]) = Some Dir -> get (w_fs w) wsd = Some Dir ->
@@ -540,8 +557,8 @@ Section S.
     let '(w', r) := sp_save frepr false w ci in
     out_unit r = VExn EDestinationExists /\ tree_same_except [] (w_fs w) (w_fs w') = true.
   Proof.
-    intros w ci cf c h0 old new wsd H1 H2 H3 H4 H5 H6 H7.
-    destruct (rekey_conflict w ci cf H1 H2 H3 H4 H5 H6 H7) as [w' [E [Hfs _]]].
+    intros w ci cf c h0 old new wsd H1 H0 H2 H3 H4 H5 H6 H7.
+    destruct (rekey_conflict w ci cf H1 H0 H2 H3 H4 H5 H6 H7) as [w' [E [Hfs _]]].
     fold c h0 old new wsd in E. rewrite E. split; [reflexivity|].
     apply fs_eq_tree_same. apply fs_eq_sym. exact Hfs.
   Qed.
